@@ -90,6 +90,25 @@ def canon_sq(v, tol=1e-9, den=40000):
     return enc_rat(f)
 
 
+def exact_f32(v):
+    """a float32 result as the exact rational it is (`-0.0` is 0); anything that is not a
+    float32 scalar is shown as it is, so that it cannot match the model"""
+    if not isinstance(v, np.float32):
+        return f"not-float32:{type(v).__name__}:{v!r}"
+    if math.isnan(float(v)):
+        return "nan"
+    if math.isinf(float(v)):
+        return repr(float(v))
+    return enc_rat(Fr(float(v)))
+
+
+def exact_f64(v):
+    v = float(v)
+    if math.isinf(v):
+        return repr(v)
+    return "nan" if math.isnan(v) else enc_rat(Fr(v))
+
+
 def show_fr(f):
     return "nan" if f is None else enc_rat(f)
 
@@ -314,8 +333,12 @@ def run(ctx):
         "(ECA, float32)",
         "the division by sqrt((lx-2)(ly-2)) is modelled over the reals only (theorems es_strength_range, "
         "esSymmOp_value); the executable model returns the counts and the squared norm",
-        "a caller editing an array returned by event_series_analysis (symmetrization='directed' returns the "
-        "cached matrix itself) is outside the histories checked",
+        "event_series_analysis(method='ES', symmetrization='directed') returns the memoised matrix itself "
+        "(the library's convention for cached results); histories in which the *caller* writes into a returned "
+        "array are outside the statement, histories in which the *library* does are checked (theorem "
+        "es_history_independent, held-array oracle)",
+        "float32 rates: the model's rn24 (round to nearest even, 24-bit significand, normal range) is "
+        "compared bit for bit with the implementation's np.float32 quotient",
     ]
     ctx.proofs()
     ES = EventSeries
@@ -335,7 +358,22 @@ def run(ctx):
         return rng.choice(c)
 
     def x_arr(x, dt):
-        return np.array(x, dtype={"int": int, "bool": bool, "int8": np.int8, "float": float}[dt])
+        a = np.array(x, dtype={"int": int, "bool": bool, "int8": np.int8, "float": float}[dt])
+        return relayout(a)
+
+    def relayout(a):
+        """the same values behind a non-contiguous view (every other element of a longer
+        buffer / a reversed buffer read backwards)"""
+        if a is None or a.ndim != 1 or rng.random() >= 0.25:
+            return a
+        if rng.random() < 0.5:
+            v = np.repeat(a, 2)[::2]
+            ctx.count("layout:strided")
+        else:
+            v = np.ascontiguousarray(a[::-1])[::-1]
+            ctx.count("layout:negative-stride")
+        assert np.array_equal(v, a)
+        return v
 
     def ts_enc(ts, T):
         return enc_rats(range(T)) if ts is None else enc_rats(ts)
@@ -377,7 +415,7 @@ def run(ctx):
         ax, ay = x_arr(x, xdt), x_arr(y, xdt)
         tdt = float if kind == "exhaustive" else ts_dtype(
             (ts1 or []) + (ts2 or []) if (ts1 or ts2) else None, kind)
-        a1, a2 = ts_arr(ts1, T, tdt), ts_arr(ts2, T, tdt)
+        a1, a2 = relayout(ts_arr(ts1, T, tdt)), relayout(ts_arr(ts2, T, tdt))
         held = [v.copy() for v in (ax, ay)] + [None if v is None else v.copy() for v in (a1, a2)]
         ctx.count(f"dtype:x={xdt}")
         if ts1 is not None:
@@ -480,6 +518,9 @@ def run(ctx):
         # time-wise formula (theorem eca_eq_formula)
         reqs.append("ecaformula" + req[3:])
         impl.append(got)
+        # the float32 quotients bit for bit (model: rn24 of the exact rate; no tolerance)
+        reqs.append("ecaf32" + req[3:])
+        impl.append("raise" if isinstance(r, Exception) else ",".join(exact_f32(v) for v in r))
         meta.append(("eca", x, y, ts1, ts2, tm, lag))
         ctx.case(req, not empty,
                  {"call": "event_coincidence_analysis", "x": x, "y": y, "ts1": ts1, "ts2": ts2,
@@ -539,6 +580,8 @@ def run(ctx):
         impl.append(got)
         reqs.append("ecarateformula" + req[7:])
         impl.append(got)
+        reqs.append("ecaratef32" + req[7:])
+        impl.append("raise" if isinstance(r, Exception) else ",".join(exact_f32(v) for v in r))
         meta.append(("ecarate", w, x, y, ts1, ts2, tm, lag))
         ctx.case(req, True)
         ctx.count(f"window:{w}")
@@ -570,7 +613,7 @@ def run(ctx):
     # ------------------------------------------------------------------
     reqs, impl = [], []
     for c in range(500 if quick else 8000):
-        N = rng.choice([1, 2, 3, 3, 4, 5, 6])
+        N = rng.choice([1, 2, 3, 3, 4, 5, 6, 8])
         T = rng.choice([4, 6, 8, 10, 12, 20])
         cols = []
         for _ in range(N):
@@ -587,6 +630,14 @@ def run(ctx):
         a = ts_arr(ts, T, ts_dtype(ts, kind))
         if rng.random() < 0.3:
             E = E.astype(rng.choice([np.int8, float, np.int32]))
+        # memory layouts of the arrays the object will hold: Fortran order, a strided view
+        lay = rng.choice(["C", "C", "C", "F", "strided"])
+        if lay == "F":
+            E = np.asfortranarray(E)
+        elif lay == "strided":
+            E = np.repeat(np.repeat(E, 2, axis=0), 2, axis=1)[::2, ::2]
+        ctx.count(f"matrix:layout={lay}")
+        a = relayout(a)
         E0, a0 = E.copy(), (None if a is None else a.copy())
         kwobj = {}
         if a is not None:
@@ -605,6 +656,43 @@ def run(ctx):
         # multi-step history on this one object: every later call must return what a fresh
         # object returns for the same call, whatever was computed (and cached) before
         hist = []
+        returned = []          # (request, array object as returned, snapshot at return time)
+        es_requests = []       # ES requests in order (for the Lean object model)
+
+        def interfere():
+            """public calls that must not change what later requests return: the significance
+            tests (surrogates are shuffled copies of the held event matrix)"""
+            if rng.random() >= 0.3:
+                return
+            np.random.seed(rng.randrange(2 ** 31))
+            if not math.isinf(tm) and rng.random() < 0.5:
+                kind = rng.choice(["shuffle", "analytic"])
+                kws = dict(method="ECA", surrogate=kind, n_surr=2,
+                           window_type=rng.choice(["advanced", "retarded"]))
+                if kind == "shuffle":
+                    kws.update(symmetrization=rng.choice(SYMMS_ECA),
+                               window_type=rng.choice(WINDOWS))
+            else:
+                kws = dict(method="ES", surrogate="shuffle", n_surr=2,
+                           symmetrization=rng.choice(SYMMS_ES))
+            S = call(lambda: obj.event_analysis_significance(**kws))
+            ctx.count(f"history:significance:{kws['method']}:{kws['surrogate']}")
+            hist.append(("significance", kws["method"], kws["surrogate"]))
+            if isinstance(S, Exception):
+                if int(E0.sum(axis=0).min()) > 0 and not (kws["surrogate"] == "analytic" and
+                                                          isinstance(S, (ValueError, ZeroDivisionError))):
+                    ctx.fail({"kind": "significance", "method": kws["method"],
+                              "surrogate": kws["surrogate"], "error": type(S).__name__},
+                             f"event_analysis_significance({kws}) raised {S!r}",
+                             {"E": E0.tolist(), "timestamps": ts, "taumax": tm, "lag": lag,
+                              "kwargs": kws})
+                return
+            if kws["surrogate"] == "shuffle":
+                v = np.asarray(S, dtype=float)
+                if v.shape != (N, N) or np.any((v[~np.isnan(v)] < 0) | (v[~np.isnan(v)] > 1)):
+                    ctx.fail({"kind": "significance-range", "method": kws["method"]},
+                             "empirical significance level outside [0,1]",
+                             {"E": E0.tolist(), "kwargs": kws, "observed": v.tolist()})
 
         def fresh_same(method, s_, w_, M, rep):
             """compare with a fresh object built from copies of the original arrays"""
@@ -653,14 +741,16 @@ def run(ctx):
                         E[:, i], E[:, j], ts1=tsd, ts2=tsd, taumax=tm, lag=lag)
             check_matrix(ctx, M, D, s, rep, N)
             fresh_same("ES", s, None, M, rep)
+            returned.append((("ES", s, None), M, np.array(M, copy=True)))
+            es_requests.append(s)
+            interfere()
         # --- ECA ---
         if math.isinf(tm):
             M = call(lambda: obj.event_series_analysis(method="ECA"))
             if not isinstance(M, ValueError):
                 ctx.fail({"kind": "matrix", "method": "ECA", "taumax": "inf"},
                          "ECA with unbounded window was not rejected", {"E": E.tolist()})
-            continue
-        for w in WINDOWS:
+        for w in ([] if math.isinf(tm) else WINDOWS):
             s = rng.choice(SYMMS_ECA)
             if w == "symmetric" and rng.random() < 0.5:
                 M = call(lambda: obj.event_series_analysis(method="ECA", symmetrization=s))
@@ -697,12 +787,38 @@ def run(ctx):
                         D[i, j], D[j, i] = (p12, p21) if w == "advanced" else (g12, g21)
             check_matrix(ctx, M, D, s, rep, N)
             fresh_same("ECA", s, w, M, rep)
+            returned.append((("ECA", s, w), M, np.array(M, copy=True)))
+            # float32 rates stored in the float64 matrix and symmetrised there: bit for bit
+            reqs.append("ecamatf32" + req[6:])
+            impl.append(enc_mat(M, lambda r: ",".join(exact_f64(v) for v in r)))
+            interfere()
         # an ES call after the ECA calls, then the arrays the object holds
         s = rng.choice(SYMMS_ES)
         M = call(lambda: obj.event_series_analysis(method="ES", symmetrization=s))
         fresh_same("ES", s, None, M, {"call": "event_series_analysis", "method": "ES",
                                       "symmetrization": s, "E": E0.tolist(), "timestamps": ts,
                                       "taumax": tm, "lag": lag})
+        if not isinstance(M, Exception):
+            returned.append((("ES", s, None), M, np.array(M, copy=True)))
+            es_requests.append(s)
+        # every array handed out during the history still holds what it held when it was
+        # returned (the memoised directed matrix is handed out by reference: nothing the
+        # library does later may write into it) ...
+        for rq, arr, snap in returned:
+            if not np.array_equal(np.asarray(arr), snap, equal_nan=True):
+                ctx.fail({"kind": "returned-array-modified", "method": rq[0], "symmetrization": rq[1]},
+                         f"the array returned for {rq} was changed by later calls on the object",
+                         {"E": E0.tolist(), "timestamps": ts, "taumax": tm, "lag": lag,
+                          "history": [list(h) for h in hist]})
+                break
+        # ... and is what the Lean object model (heap of arrays, memoised directed matrix,
+        # helper table generated from the source) holds at the end of the same history
+        if es_requests and all(not isinstance(r_[1], Exception) for r_ in returned):
+            reqs.append(f"eshist {ts_enc(ts, T)} {Eenc} {N} {enc_rat(tm)} {enc_rat(lag)} "
+                        + ",".join(es_requests))
+            impl.append("|".join(enc_mat(arr, lambda r: ",".join(canon_sq(v) for v in r))
+                                 for rq, arr, _ in returned if rq[0] == "ES"))
+            ctx.count(f"history:es-requests={min(len(es_requests), 9)}")
         if not np.array_equal(E, E0) or not np.array_equal(obj.get_event_matrix(), E0) or \
                 (a is not None and not np.array_equal(a, a0)):
             ctx.fail({"kind": "held-array-modified", "class": "EventSeries"},
@@ -728,6 +844,9 @@ def run(ctx):
         # caller data in both float widths, or as integers
         ddt = rng.choice([float, float, np.float32] + ([] if half else [np.int64]))
         data = data.astype(ddt)
+        if rng.random() < 0.2:
+            data = np.asfortranarray(data)
+            ctx.count("threshold:layout=F")
         ctx.count(f"threshold:data={np.dtype(ddt).name}")
         per_var = rng.random() < 0.5
         ms = [rng.choice(["quantile", "value"]) for _ in range(N)]
@@ -863,6 +982,24 @@ def run(ctx):
                      {"T": T, "x_events": np.nonzero(x)[0].tolist(),
                       "y_events": np.nonzero(y)[0].tolist(), "observed": g0, "expected_squared": exp})
 
+        # the coincidence rates on the same long series (int8 event arrays, no time stamps)
+        x8, y8 = x.astype(np.int8), y.astype(np.int8)
+        for tmv, lagv in ((2.0, 0.0), (1.0, 1.0)):
+            r0 = call(lambda: ES.event_coincidence_analysis(x8, y8, tmv, lag=lagv))
+            g0 = "raise" if isinstance(r0, Exception) else ",".join(exact_f32(v) for v in r0)
+            o = eca_formula(np.nonzero(x)[0].tolist(), np.nonzero(y)[0].tolist(), tmv, lagv)
+            exp = ",".join("nan" if v is None else enc_rat(Fr(float(np.float32(v.numerator)
+                                                                   / np.float32(v.denominator))))
+                           for v in o)
+            ctx.count("long-series:eca")
+            if g0 != exp:
+                ctx.fail({"kind": "formula", "method": "event_coincidence_analysis",
+                          "input": "T>32767,ts=None,int8"},
+                         f"event_coincidence_analysis on {T} samples (int8, no time stamps) = {g0}, "
+                         f"formula gives {exp}",
+                         {"T": T, "x_events": np.nonzero(x)[0].tolist(),
+                          "y_events": np.nonzero(y)[0].tolist(), "taumax": tmv, "lag": lagv})
+
     # (b) EventSeriesClimateNetwork: the similarity matrix is the analysis matrix
     check_climate_network(ctx, rng, quick)
 
@@ -886,7 +1023,7 @@ def check_climate_network(ctx, rng, quick):
     base = ESCN.SmallTestData()
     for c in range(4 if quick else 20):
         method = rng.choice(["ES", "ECA"])
-        s = rng.choice(SYMMS_ECA)
+        s = rng.choice(SYMMS_ECA if method == "ECA" or rng.random() < 0.5 else SYMMS_ES)
         q = rng.choice([0.5, 0.625, 0.75])
         p_value = None if c % 2 == 0 else rng.choice([0.05, 0.5])
         kw = dict(method=method, taumax=rng.choice([1.0, 2.0, 16.0]), lag=0.0,
@@ -918,6 +1055,21 @@ def check_climate_network(ctx, rng, quick):
                     continue      # entry removed by the significance test
                 if math.isnan(a) != math.isnan(b) or (not math.isnan(a) and abs(a - b) > 1e-6):   # similarity matrix is stored as float32
                     ok = False
+        # the subclass object after its constructor (which thresholds the returned analysis
+        # matrix in place when p_value is given) still answers like a plain EventSeries
+        for s2 in rng.sample(SYMMS_ES if method == "ES" else SYMMS_ECA, 2):
+            with warnings.catch_warnings():
+                warnings.simplefilter("ignore")
+                with np.errstate(all="ignore"):
+                    A = call(lambda: net.event_series_analysis(method=method, symmetrization=s2))
+                    B = ev.event_series_analysis(method=method, symmetrization=s2)
+            ctx.count("climate-network:history")
+            if isinstance(A, Exception) or not np.array_equal(A, B, equal_nan=True):
+                ctx.fail({"kind": "climate-network", "what": "event_series_analysis-after-init",
+                          "p_value": p_value is not None},
+                         f"EventSeriesClimateNetwork.event_series_analysis({method},{s2}) after "
+                         "construction differs from the EventSeries result",
+                         dict(rep, symmetrization=s2))
         if not ok:
             ctx.fail({"kind": "climate-network", "what": "similarity_measure"},
                      "network similarity matrix differs from event_series_analysis",
